@@ -374,7 +374,6 @@ func (index *PatternIndex) searchPairs(ctx *Context, pairs []piPair) (StringSet,
 	rest := pairs[1:]
 
 	k := pair.key
-	v := pair.val
 
 	if strings.HasPrefix(k, "?") {
 		if AllowPropertyVariables {
@@ -393,17 +392,41 @@ func (index *PatternIndex) searchPairs(ctx *Context, pairs []piPair) (StringSet,
 		return index.searchPairs(ctx, rest)
 	}
 	ki, have := si[k]
-	if !have {
-		if !AllowPropertyVariables {
-			// Key not here.  Try next pair.
-			return index.searchPairs(ctx, rest)
-		}
-		// Check for anonymous variable.
-		if ki, have = si["?"]; !have {
-			// Key not here.  Try next pair.
-			return index.searchPairs(ctx, rest)
+	if AllowPropertyVariables && k != "?" {
+		// Patterns with a variable as the key live under the
+		// anonymous variable, and they are candidates whether
+		// or not some other pattern names this key.  (They used
+		// to be looked at only when no pattern named the key.)
+		if vki, haveVar := si["?"]; haveVar {
+			if !have {
+				ki, have = vki, true
+			} else {
+				viaVar, err := index.searchPairsVia(ctx, vki, pair, rest)
+				if err != nil {
+					return nil, err
+				}
+				viaKey, err := index.searchPairsVia(ctx, ki, pair, rest)
+				if err != nil {
+					return nil, err
+				}
+				viaKey.AddAll(viaVar)
+				return viaKey, nil
+			}
 		}
 	}
+	if !have {
+		// Key not here.  Try next pair.
+		return index.searchPairs(ctx, rest)
+	}
+	return index.searchPairsVia(ctx, ki, pair, rest)
+}
+
+// searchPairsVia continues searchPairs after the step from 'index' via
+// the pair's key to 'ki'.
+func (index *PatternIndex) searchPairsVia(ctx *Context, ki *PatternIndex, pair piPair, rest []piPair) (StringSet, error) {
+	k := pair.key
+	v := pair.val
+
 	// We took a step down.
 
 	// Let's see if we can find some Ids considering the value.
